@@ -20,7 +20,7 @@ impl Group for C11Sim {
          store and its durable view compared with the running node; non-trivial = at least three accepted state-changing requests \
          of at least two different kinds"
     }
-    fn budget(&self, tier: Tier) -> usize { if tier == Tier::Quick { 80 } else { 2000 } }
+    fn budget(&self, tier: Tier) -> usize { if tier == Tier::Quick { 250 } else { 4000 } }
     fn model_line(&self, op: &str) -> Option<String> { node_model_line(op) }
     fn corpus(&self) -> Vec<Vec<String>> {
         let c = |s: &str| s.split('|').map(|x| x.to_string()).collect::<Vec<_>>();
